@@ -3342,7 +3342,7 @@ class EntityFixup(MutableMapping[str, str]):
         for fixup in sorted(self._fixup.values(), key=operator.attrgetter('id')):
             # When exporting, pad the index with zeros if necessary
             buffer.write(
-                f'{ind}\t"replace{fixup.id:02}" "${fixup.var} {escape_text(fixup.value)}"\n'
+                f'{ind}\t"replace{fixup.id:02}" "${escape_text(fixup.var)} {escape_text(fixup.value)}"\n'
             )
 
     def __str__(self) -> str:
